@@ -1092,8 +1092,12 @@ def _low_rank_root(
   if padding_start is not None:
     eig_error *= jnp.flip(ix)
   error = jnp.max(jnp.abs(eig_error))
-  inv_e = jnp.where(e == 0.0, 0.0,
-                    jnp.power(jnp.maximum(e, ridge_epsilon), alpha))
+  # As in matrix_inverse_pth_root_eigh: with a zero ridge a rounding-level
+  # negative eigenvalue of a singular matrix would be clipped to 0 and raised
+  # to a negative power (inf); treat it like an exact zero.
+  clipped_e = jnp.maximum(e, ridge_epsilon)
+  inv_e = jnp.where(jnp.logical_or(e == 0.0, clipped_e <= 0.0), 0.0,
+                    jnp.power(clipped_e, alpha))
   assert abs(compression_rank) <= matrix_size
   d = matrix_size
   # If padding_start < d, then we should have (d - padding_start)
